@@ -18,8 +18,11 @@
    surviving blocks, size_of b (column charge) = count for EVERY block (0 for the dropped
    ones), surviving sectors keep their order.  trunc_s_spec: S keyed by the kept charges.
 
-   C13b_error_identity_full is a STATEMENT ONLY (Definition), not proved: see the comment at
-   LinalgProofs2.error_identity_stmt for what is missing. *)
+   C13b_error_identity: with the orthonormality contracts of the per-block routine added
+   (`orth_cols` of every U block, `orth_rows` of every Vh block: LinalgProofs.Full), the squared
+   Frobenius norm of x - product over ALL coordinates equals the sum of the discarded |s|^2
+   (different bond charges have disjoint supports, so the factors are orthonormal across
+   blocks: LinalgProofs2.gram_u / gram_v).  Instance: LinalgProofs2.ErrEx (error 81). *)
 From SV Require Import Base.Prelude Base.Sym Base.Tensor Model.Sectors Model.Array Model.Arith Model.Wf Model.Linalg Model.Truncate
   Proofs.Tdot Proofs.StructProofs Proofs.LinalgProofs Proofs.LinalgProofs2.
 Local Open Scope nat_scope.
@@ -108,11 +111,31 @@ Theorem C13b_discarded_coordinates :
                          n <= o < n + (ncols R (fst (svd_uv R svd_blk (snd sb))) - n).
 Proof. exact disc_coords_spec. Qed.
 
-(* NOT PROVED: statement only *)
-Definition C13b_error_identity_full : Prop := error_identity_stmt.
+(* squared Frobenius norm of the truncation error = sum of the discarded squared singular values *)
+Theorem C13b_error_identity :
+  forall (G : Symmetry) (R : Ring) (svd_blk : tensor R -> tensor R * tensor R * tensor R) (sqrt_blk : tensor R -> tensor R)
+         (x u : aarray G R) (s : bvec G R) (vh : aarray G R) (counts : list nat) (mode : absorb_mode)
+         (U' VH' res : aarray G R),
+    GroupLaws G -> CRingLaws R ->
+    (forall c : C G, cltb G c c = false) ->
+    (forall a b c : C G, cltb G a b = true -> cltb G b c = true -> cltb G a c = true) ->
+    (forall a b : C G, a <> b -> cltb G a b = true \/ cltb G b a = true) ->
+    svd_shapes R svd_blk ->
+    wf_array G R x = true -> ndim G R x = 2 -> counts_ok G R svd_blk x counts ->
+    (forall sec m, In (sec, m) (blocks G R x) ->
+       svd_product R svd_blk m /\ orth_cols R (fst (svd_uv R svd_blk m)) /\ orth_rows R (snd (svd_uv R svd_blk m))) ->
+    a_svd G R svd_blk x = Some (u, s, vh) ->
+    (mode = AbsBoth -> sqrt_ok G R svd_blk x counts sqrt_blk) ->
+    a_svd_truncated G R svd_blk sqrt_blk x counts (Some mode) = Some (U', None, VH') ->
+    a_matmul G R U' VH' = Some res ->
+    rsum R (map (fun cs => let d := radd R (sem G R x cs) (rneg R (sem G R res cs)) in rmul R d (rconj R d))
+                (all_coords G (indices G R x)))
+    = rsum R (map (fun k => rmul R (vsem G R s k) (rconj R (vsem G R s k))) (disc_coords G R svd_blk x counts)).
+Proof. exact error_identity. Qed.
 
 Print Assumptions C13b_truncated_wf.
 Print Assumptions C13b_truncated_product.
 Print Assumptions C13b_absorb_equal.
 Print Assumptions C13b_truncated_residual.
 Print Assumptions C13b_discarded_coordinates.
+Print Assumptions C13b_error_identity.
